@@ -19,11 +19,12 @@ import (
 // configuration (routine.WithRetry) in virtual time.
 type BoCase struct {
 	Expo    bool     `json:"expo"`
-	Initial uint32   `json:"initial"` // ms, 0 = default (800)
-	Mult10  int      `json:"mult10"`  // multiplier * 10, 0 = default (1.8)
-	Max     uint32   `json:"max"`     // ms, 0 = default (20000)
-	Const   uint32   `json:"const"`   // ms, 0 = default (5000)
-	Decoy   int      `json:"decoy"`   // > 0: a second container built from the same Option value fails this many times meanwhile
+	Initial uint32   `json:"initial"`          // ms, 0 = default (800)
+	Mult10  int      `json:"mult10"`           // multiplier * 10, 0 = default (1.8)
+	Max     uint32   `json:"max"`              // ms, 0 = default (20000)
+	Const   uint32   `json:"const"`            // ms, 0 = default (5000)
+	NoKind  bool     `json:"nokind,omitempty"` // backoff_kind left at its zero value (documented: defaults to exponential)
+	Decoy   int      `json:"decoy"`            // > 0: a second container built from the same Option value fails this many times meanwhile
 	Steps   []BoStep `json:"steps"`
 }
 
@@ -43,6 +44,7 @@ func genBo(t *rapid.T) BoCase {
 		return BoStep{RunMin: rapid.SampledFrom([]int{0, 0, 1, 16, 40}).Draw(t, "run"), OK: rapid.IntRange(0, 4).Draw(t, "ok") == 0}
 	})
 	c.Steps = rapid.SliceOfN(step, 1, ev.Pick(6, 12)).Draw(t, "steps")
+	c.NoKind = c.Expo && rapid.IntRange(0, 3).Draw(t, "nokind") == 0
 	if rapid.IntRange(0, 2).Draw(t, "hasdecoy") == 0 {
 		c.Decoy = rapid.IntRange(1, 8).Draw(t, "decoy")
 	}
@@ -75,6 +77,9 @@ func runBo(t *testing.T, cs BoCase) *ev.Verdict {
 		}
 		if cs.Expo {
 			conf.BackoffKind = backoff.BackoffKind_BackoffKind_EXPONENTIAL
+			if cs.NoKind {
+				conf.BackoffKind = backoff.BackoffKind_BackoffKind_UNKNOWN
+			}
 			conf.Exponential = &backoff.Exponential{InitialInterval: cs.Initial, Multiplier: float32(cs.Mult10) / 10, MaxInterval: cs.Max}
 			ini, mx := cs.Initial, cs.Max
 			if ini == 0 {
